@@ -492,6 +492,9 @@ async def _e2e_ip(loop, peer, case):
     orig = _ids(disc_mod, peer.ios_id)
     try:
         w.acc.setup_handler = peer.respond
+        if case.get("framing"):
+            # how the replies travel: Content-Length or chunked, each in two TCP segments cut at an offset (negative: counted from the end)
+            w.acc.reply_chunked, w.acc.reply_cut = bool(case["framing"][0]), case["framing"][1]
         w.controller.pairings = {}
         desc = HomeKitService(name="Sim", id=case["acc_id"], model="M", feature_flags=FeatureFlags(1 if case.get("with_auth") else 0), status_flags=StatusFlags(1),
                               config_num=1, state_num=1, category=Categories(5), protocol_version="1.1", type="_hap._tcp.local.", address="10.0.0.5",
@@ -725,6 +728,12 @@ def enum_second_attempts(tier):
             i += 1
             yield {"k": SEED * 86028121 + i, "code": "%03d-%02d-%03d" % (i * 41 % 1000, i % 100, (i * 3) % 1000), "acc_id": "AA:BB:CC:DD:EE:FF", "ios_id": "ios-second-%d" % i,
                    "with_auth": bool(i % 2), "salt_zeros": 0, "fault": ["none"], "transport": tr, "retry": ["wrong-code"]}
+    # IP: the replies of an honest exchange in two segments cut near their end (where chunk data, chunk CRLF, last chunk and final CRLF meet) and elsewhere
+    for chunked in (0, 1):
+        for cut in [-k for k in range(1, 10)] + [1, 17, 60, 200, 300]:
+            i += 1
+            yield {"k": SEED * 86028121 + i, "code": "%03d-%02d-%03d" % (i * 41 % 1000, i % 100, (i * 3) % 1000), "acc_id": "AA:BB:CC:DD:EE:FF", "ios_id": "ios-second-%d" % i,
+                   "with_auth": bool(i % 2), "salt_zeros": 0, "fault": ["none"] if i % 5 else ["m4-flip", 3], "transport": "ip", "framing": [chunked, cut]}
     for fault in (["none"], ["wrong-code"], ["m4-flip", 5], ["m6-flip", 9], ["m4-drop-proof", 0]):
         i += 1
         c = {"k": SEED * 86028121 + i, "code": "%03d-%02d-%03d" % (i * 41 % 1000, i % 100, (i * 3) % 1000), "acc_id": "AA:BB:CC:DD:EE:FF", "ios_id": "ios-second-%d" % i,
